@@ -94,6 +94,8 @@ class SerializedWaiter(BaseModel):
     has_requirements: bool = Field(default=False)
     # Resolved event if available (serialized), None otherwise
     resolved_event: str | None = None
+    # Whether the wait already timed out (the step is replayed to raise TimeoutError)
+    timed_out: bool = Field(default=False)
 
     @model_validator(mode="before")
     @classmethod
